@@ -18,6 +18,8 @@ func main() {
 		err = runSeq(os.Args[2], os.Args[3])
 	case "pairs":
 		err = runPairs(os.Args[2], os.Args[3])
+	case "search":
+		err = runSearch(os.Args[2], os.Args[3])
 	case "order":
 		err = runOrder(os.Args[2], os.Args[3])
 	case "sched":
